@@ -90,8 +90,13 @@ def record(text):
             events.append({'tok': tok, 'emitted': pend})
             consumed += e['n'] or 0
             pend = []
+    # a defined name that is also the name of a function of the same formula (=IF/X(IF(1)))
+    # is refused when the builder finishes, after every token was taken: the token
+    # abstraction (every name is "A1") cannot show it, only the prefix is validated
+    names = {e['name'].upper() for e in evs if e['ev'] == 'tok' and e['cls'] == 'Range'}
+    funcs = {e['name'].upper() for e in evs if e['ev'] == 'tok' and e['cls'] == 'Function'}
     return {'events': events, 'outcome': outcome, 'final': pend,
-            'consumed': consumed}, exc
+            'consumed': consumed, 'name_is_function': bool(names & funcs)}, exc
 
 
 def _run(texts):
@@ -121,7 +126,7 @@ def validate_traces(rep, recs, wd, pid, label):
         if outcome == 'rej':
             # Failure inside the token loop leaves text unconsumed: only the
             # consumed prefix can be validated.
-            outcome = 'rej' if rec['at_end'] else 'rej-at-token'
+            outcome = 'rej' if rec['at_end'] and not rec.get('name_is_function') else 'rej-at-token'
         traces.append({'id': i, 'events': rec['events'], 'outcome': outcome,
                        'final': rec['final']})
     nproc = min(NCPU, max(1, len(traces) // 200))
